@@ -290,6 +290,11 @@ def gen_scipy(rng, tier):
             noise = rng.choice([0.05, 0.3])
             cases.append({'op': 'align', 'rq': rq, 'b': b, 'noise': [[noise * rng.gauss(0, 1) for _ in range(3)] for _ in range(n)],
                           'weights': w, 'single': True})
+        # antiparallel primary pair (a_0 = -b_0): a single pair, and an infinite weight on it (before the repair: improper -identity)
+        for b0 in ([1.0, 0.0, 0.0], [0.0, 0.0, 2.0], [1.0, 2.0, -2.0], [0.25, -0.5, 0.75]):
+            cases.append({'op': 'align', 'rq': [0.0, 0.0, 0.0, 1.0], 'b': [b0], 'noise': [[0.0, 0.0, 0.0]], 'weights': None, 'single': True, 'antiparallel': True})
+            cases.append({'op': 'align', 'rq': [0.0, 0.0, 0.0, 1.0], 'b': [b0, [0.5, 1.0, 0.25], [-1.0, 0.5, 0.0]], 'noise': [[0.0] * 3, [0.05, 0.0, 0.02], [0.0, -0.03, 0.01]],
+                          'weights': ['inf', 1.0, 2.0], 'single': True, 'antiparallel': True})
     return cases
 
 
@@ -341,6 +346,8 @@ def impl_scipy(c):
         rq = S().from_quat(c['rq'])
         b = np.array(c['b'], dtype=float)
         a = rq.apply(b) + np.array(c['noise'], dtype=float)
+        if c.get('antiparallel'):
+            a[0] = -b[0]
         w = None if c['weights'] is None else np.array([float('inf') if x == 'inf' else x for x in c['weights']], dtype=float)
         rs, rssd_s = S().align_vectors(a, b, weights=w)
         # the same float64 tensors are used for two consecutive calls: every call has to agree with scipy and must leave its inputs alone
